@@ -185,6 +185,85 @@ def check_large_separable(case):
     return tags
 
 
+def _upper_hull_values(xs, ys, grid):
+    """Values at the grid abscissae of the upper concave hull of the points (xs, ys) (monotone chain)."""
+    order = np.lexsort((ys, xs))
+    pts = []
+    for i in order:
+        x, y = float(xs[i]), float(ys[i])
+        if pts and pts[-1][0] == x:
+            pts[-1] = (x, max(y, pts[-1][1]))
+        else:
+            pts.append((x, y))
+    hull = []
+    for p in pts:
+        while len(hull) >= 2 and (hull[-1][0] - hull[-2][0]) * (p[1] - hull[-2][1]) - (hull[-1][1] - hull[-2][1]) * (p[0] - hull[-2][0]) >= 0:
+            hull.pop()
+        hull.append(p)
+    hx, hy = np.array([h[0] for h in hull]), np.array([h[1] for h in hull])
+    return np.interp(grid, hx, hy)
+
+
+def check_large_noisy(case):
+    """Groups of 2 100 - 4 000 rows with pairwise distinct noisy scores and different base rates under demographic
+    parity with accuracy as objective: the per-group objective rises and falls along the selection rate.  Reference:
+    per group the points (selection rate, accuracy) of all thresholdings (numpy cumulative sums), their upper concave
+    hull evaluated on the grid, weighted by group frequency; the optimum over the grid is what the fitted rule attains."""
+    from fairlearn.postprocessing import ThresholdOptimizer
+
+    from vf.learners import ScoreColumn
+
+    rs = np.random.RandomState(case["seed"])
+    S, Y, Gr = [], [], []
+    for k, (size, base, sharp) in enumerate(case["groups"]):
+        sc = rs.permutation(size) / float(size) + k * 1e-7  # pairwise distinct
+        pr = 1.0 / (1.0 + np.exp(-sharp * (sc - (1.0 - base))))
+        yy = (rs.rand(size) < pr).astype(int)
+        yy[:2] = [0, 1]
+        S.append(sc); Y.append(yy); Gr.append(np.full(size, k))
+    s, y, g = np.concatenate(S), np.concatenate(Y), np.concatenate(Gr)
+    perm = rs.permutation(len(s))
+    s, y, g = s[perm], y[perm], g[perm]
+    G = case["grid"]
+    to = ThresholdOptimizer(estimator=ScoreColumn(), constraints=case["constraint"], objective="accuracy_score", grid_size=G,
+                            flip=False, prefit=True, predict_method="predict")
+    to.fit(s.reshape(-1, 1), y, sensitive_features=g)
+    p = np.asarray(to._pmf_predict(s.reshape(-1, 1), sensitive_features=g))[:, 1]
+    got = float(np.where(y == 1, p, 1 - p).mean())
+    grid = np.linspace(0, 1, G + 1)
+    total = np.zeros(G + 1)
+    for k in range(len(case["groups"])):
+        m = g == k
+        o = np.argsort(-s[m], kind="stable")
+        yy = y[m][o]
+        ng = int(m.sum())
+        tp = np.r_[0, np.cumsum(yy)]
+        sel = np.arange(ng + 1)
+        acc = (tp + ((ng - yy.sum()) - (sel - tp))) / ng
+        total += (ng / len(s)) * _upper_hull_values(sel / ng, acc, grid)
+    best = float(total.max())
+    if got < best - 1e-9:
+        raise PropertyViolation(
+            f"groups of sizes {[gr[0] for gr in case['groups']]} with distinct noisy scores: the fitted rule has expected accuracy {got!r}, "
+            f"but equal selection rate {float(grid[int(total.argmax())])!r} for every group allows {best!r} (grid_size={G})")
+    if got > best + 1e-9:
+        raise PropertyViolation(f"fitted rule reports expected accuracy {got!r} above the reference optimum {best!r}: selection rates are not equal")
+    tags = ["nt"]
+    if max(gr[0] for gr in case["groups"]) > 2048:
+        tags.append("levels>2048")
+    return tags
+
+
+@st.composite
+def _large_noisy_cases(draw):
+    k = draw(st.integers(2, 3))
+    groups = [[draw(st.sampled_from([2100, 2500, 3000, 4000, 600])), draw(st.sampled_from([0.2, 0.35, 0.5, 0.7])), draw(st.sampled_from([3.0, 8.0, 20.0]))]
+              for _ in range(k)]
+    groups[0][0] = draw(st.sampled_from([2100, 2500, 4000]))
+    return {"groups": groups, "seed": draw(st.integers(0, 2**31 - 1)), "grid": draw(st.sampled_from([10, 100, 1000])),
+            "constraint": draw(st.sampled_from(["demographic_parity", "selection_rate_parity"]))}
+
+
 @st.composite
 def _large_cases(draw):
     k = draw(st.integers(2, 3))
@@ -209,4 +288,6 @@ SUBS = [
                 "optimum_inside_grid": 0.079}),
     Sub("large_separable_groups", check_large_separable, strategy=_large_cases, quick=48, thorough=600, shards=16,
         shrink_quick=False, floors={"group>=2000_rows": 0.45}),
+    Sub("optimum_large_noisy", check_large_noisy, strategy=_large_noisy_cases, quick=32, thorough=500, shards=16, shrink_quick=False,
+        floors={"levels>2048": 0.5}),
 ]
